@@ -72,8 +72,20 @@ def _iter_funcs(tree, prefix=""):
 # helpers
 
 
+_PURE_BUILTINS = {"slice", "len", "range", "tuple", "frozenset", "int", "float", "str", "bool", "min", "max", "abs"}
+
+
+def _dotted_name(e):
+    """Enum.MEMBER / module.CONSTANT: a chain of attributes on a name"""
+    while isinstance(e, ast.Attribute):
+        e = e.value
+    return isinstance(e, ast.Name)
+
+
 def _is_literal(e):
     if isinstance(e, ast.Constant):
+        return True
+    if isinstance(e, ast.Attribute) and _dotted_name(e):
         return True
     if isinstance(e, ast.UnaryOp) and isinstance(e.op, (ast.USub, ast.UAdd)):
         return _is_literal(e.operand)
@@ -146,17 +158,22 @@ def propagate_new_constants(tree, ref_globals):
 class _Getattr(ast.NodeTransformer):
     def visit_Subscript(self, n):
         self.generic_visit(n)
-        c = n.slice
-        # x[slice(a, b)] -> x[a:b]
-        if isinstance(c, ast.Call) and isinstance(c.func, ast.Name) and c.func.id == "slice" and not c.keywords and 1 <= len(c.args) <= 3:
-            a = list(c.args)
-            none = lambda e: None if (isinstance(e, ast.Constant) and e.value is None) else e
-            if len(a) == 1:
-                n.slice = ast.Slice(lower=None, upper=none(a[0]), step=None)
-            elif len(a) == 2:
-                n.slice = ast.Slice(lower=none(a[0]), upper=none(a[1]), step=None)
-            else:
-                n.slice = ast.Slice(lower=none(a[0]), upper=none(a[1]), step=none(a[2]))
+        def conv(c):
+            # slice(a, b) -> a:b
+            if isinstance(c, ast.Call) and isinstance(c.func, ast.Name) and c.func.id == "slice" and not c.keywords and 1 <= len(c.args) <= 3:
+                a = list(c.args)
+                none = lambda e: None if (isinstance(e, ast.Constant) and e.value is None) else e
+                if len(a) == 1:
+                    return ast.Slice(lower=None, upper=none(a[0]), step=None)
+                if len(a) == 2:
+                    return ast.Slice(lower=none(a[0]), upper=none(a[1]), step=None)
+                return ast.Slice(lower=none(a[0]), upper=none(a[1]), step=none(a[2]))
+            return c
+
+        if isinstance(n.slice, ast.Tuple):
+            n.slice.elts = [conv(x) for x in n.slice.elts]
+        else:
+            n.slice = conv(n.slice)
         return n
 
     def visit_Call(self, n):
@@ -558,8 +575,12 @@ def inline_new_temps(tree, ref_mod):
                 continue
             in_region = {id(x) for st in region for x in ast.walk(st)}
             uses_outside = any(isinstance(x, ast.Name) and x.id == nm and isinstance(x.ctx, ast.Load) and id(x) not in in_region for x in own)
+            last_use = max([k for k, st in enumerate(region) if any(isinstance(x, ast.Name) and x.id == nm and isinstance(x.ctx, ast.Load)
+                                                                       for x in ast.walk(st))] or [-1])
+            # operands must keep their value from the definition up to the last use (a compound statement that both uses the
+            # temporary and rebinds an operand is refused as a whole)
             later_store = uses_outside or any(isinstance(x, ast.Name) and isinstance(x.ctx, (ast.Store, ast.Del)) and x.id in operands
-                                              for st in region for x in ast.walk(st))
+                                              for st in region[:last_use + 1] for x in ast.walk(st))
             in_loop = False   # uses are confined to the statements following the definition in its own block
             uses_before = any(isinstance(x, ast.Name) and isinstance(x.ctx, ast.Load) and x.id == nm
                               and (x.lineno, x.col_offset) < (asg.lineno, asg.col_offset) for x in own)
@@ -583,7 +604,8 @@ def inline_new_temps(tree, ref_mod):
             if mutated:
                 n_uses = 0
             # soundness of moving the expression to its uses
-            has_call = any(isinstance(x, (ast.Call, ast.Await)) for x in ast.walk(asg.value))
+            has_call = any(isinstance(x, ast.Await) or (isinstance(x, ast.Call) and not (
+                isinstance(x.func, ast.Name) and x.func.id in _PURE_BUILTINS)) for x in ast.walk(asg.value))
             has_deref = any(isinstance(x, (ast.Subscript, ast.Attribute, ast.Starred)) for x in ast.walk(asg.value))
             use_stmts = [k for k, st in enumerate(region) if any(isinstance(x, ast.Name) and x.id == nm and isinstance(x.ctx, ast.Load)
                                                                   for x in ast.walk(st))]
@@ -700,3 +722,10 @@ def normalise(rel, tree, inv):
     _Aug().visit(tree)
     ast.fix_missing_locations(tree)
     return {k: v for k, v in done.items() if v}
+
+
+def finish(tree):
+    """spelling normalisations that may become applicable after temporaries were inlined"""
+    _Getattr().visit(tree)
+    _Aug().visit(tree)
+    ast.fix_missing_locations(tree)
